@@ -485,6 +485,14 @@ impl Response {
         &mut self,
         raw_message: &[u8],
     ) -> Result<(ParseStatusInternal, ResponseState, usize), Error> {
+        // A carriage return at the very end of the input may turn out to be
+        // the first half of a line terminator.  It cannot complete anything
+        // yet, so hold it back; otherwise a header line length limit set on
+        // the headers would depend on where the input happens to be split.
+        let raw_message = match raw_message.split_last() {
+            Some((b'\r', rest)) => rest,
+            _ => raw_message,
+        };
         let parse_results =
             self.headers.parse(raw_message).map_err(Error::Headers)?;
         match parse_results.status {
